@@ -187,6 +187,22 @@ def run(rep, tier, seed):
                     for text in (body, 'mit and ' + body, body + ' or mit', 'mit or (' + body + ')'):
                         cases.append((Tint, gen.vary_case(rng, text) if rng.random() < 0.3 else text, False))
                         rep.count('interrupted_name_texts')
+    # damaged valid expressions (one local malformation: a dropped operator, an operand or a WITH pair after ")", ...): when
+    # such a text is accepted anyway, every word must still be accounted for
+    from props import c03
+    for _ in range(12000 if tier == 'thorough' else 1500):
+        t, kind = c03.malform(rng, c03.valid_tokens(rng, rng.randint(1, 3)))
+        if len(t) <= 24:
+            cases.append((gen.TOKEN_TABLE, gen.render_tokens(t), rng.random() < 0.3))
+            rep.count('damaged_expressions')
+    # a license, or a WITH pair, directly after a closing parenthesis at the start of an enclosing group
+    for inner in ('mit', 'mit and zz', 'zz or mit', 'mit with cpe'):
+        for tail in ('mit with cpe', 'zz with cpe', 'mit', 'zz zz', 'zz with cpe or mit'):
+            for tmpl in ('((%s) %s)', 'zz and ((%s) %s or mit)', '(((%s)) %s) and zz', '( (%s) %s )', '((%s) %s) or ((%s) %s)'):
+                text = tmpl % ((inner, tail) * (tmpl.count('%s') // 2))
+                for simple in (False, True):
+                    cases.append((gen.TOKEN_TABLE, text, simple))
+                    rep.count('operand_after_group_texts')
     # regression inputs of the repaired defects
     cases += [([('GNU GPL', [], False), ('GPL 2.0', [], False)], 'GNU GPL 2.0 or mit', False),
               ([('GPL 2.0', [], False), ('mit', [], False)], 'mit or gpl    2.0', False),
